@@ -77,7 +77,9 @@ def job_fn(job):
         order = order[::-1]
     grid_f = {k: np.array([float(v[i]) for i in order]) for k, v in grid.items()}
     # expected combined spec -------------------------------------------------------------
-    cname = lambda r: f"base_{r}"        # noqa
+    # circuit r of the sweep is named after the index LABEL of grid row r (0..n-1 for dict grids)
+    labels = (list(range(1, rows)) + [0]) if job.get('df_index') else list(range(rows))
+    cname = lambda r: f"base_{labels[r]}"        # noqa
     nodes, edges = {}, []
     for r in range(rows):
         gi = order[r]
@@ -138,7 +140,17 @@ def job_fn(job):
             warnings.simplefilter('ignore')
             try:
                 outs = {'xo': 'n1/o1/x', 'xl': 'm0/li/x'}
-                df, ptable = grid_search(ct, grid_f, pmap, step_size=0.25, simulation_time=0.75, outputs=dict(outs),
+                grid_arg = grid_f
+                if job.get('df_index'):
+                    # the grid as a DataFrame whose integer index labels are a permutation: rows keep their POSITION
+                    import pandas as pd
+                    grid_arg = pd.DataFrame({k: list(v) for k, v in grid_f.items()}, index=labels)
+                ct_arg = ct
+                if job.get('yaml_path'):
+                    # the circuit given as a template path (from_yaml caches templates by path)
+                    ct.to_yaml(f"{wd}/gs.yaml")
+                    ct_arg = f"{wd}/gs/{ct.name}"
+                df, ptable = grid_search(ct_arg, grid_arg, pmap, step_size=0.25, simulation_time=0.75, outputs=dict(outs),
                                          inputs=inputs, vectorize=job['vectorize'], verbose=False, in_place=False,
                                          float_precision='float64', solver='euler', clear=False)
             except Exception as e:   # noqa
@@ -245,6 +257,13 @@ def run(tier='quick', seed=0, only=None, verbose=False):
                         continue
                     jobs.append(dict(key=f"grid:{sc}:rows={rows}:rev={rev}|vec={vec}", scenario=sc, rows=rows,
                                      vectorize=vec, reverse=rev))
+    for sc in ('node-params', 'edge-weight'):
+        for rows in (3,) if tier == 'quick' else (2, 3, 4):
+            for vec in (True, False):
+                jobs.append(dict(key=f"grid:{sc}:rows={rows}:dataframe-permuted-index|vec={vec}", scenario=sc, rows=rows,
+                                 vectorize=vec, reverse=False, df_index=True))
+                jobs.append(dict(key=f"grid:{sc}:rows={rows}:yaml-path|vec={vec}", scenario=sc, rows=rows,
+                                 vectorize=vec, reverse=False, yaml_path=True))
     if only:
         jobs = [j for j in jobs if only in j['key']]
     for job, outc in runner.run_jobs(job_fn, jobs, timeout=600):
